@@ -201,7 +201,9 @@ pub fn build(caps: &[&str], flow: &str, variant: &str, nesting: usize) -> Option
             b.push(let_(t, E::Tuple(vec![int(1), v(c)])));
             E::Call(Box::new(E::Proj(Box::new(v(t)), 1)), vec![arg(7)])
         }
-        "struct-field" | "struct-field-direct" => {
+        // (calling a function-typed field in place, `h.f(x)` or `(h.f)(x)`, is read as a method call by goml)
+        "struct-field-direct" => return None,
+        "struct-field" => {
             cx.items.push(Item::Struct(StructDef { name: "Holder".into(), generics: vec![], fields: vec![("f".into(), fn_ty()), ("n".into(), Ty::i32())], derives: vec![] }));
             let h = cx.n.fresh("h");
             b.push(let_(h, E::StructLit("Holder".into(), vec![("f".into(), v(c)), ("n".into(), int(1))], vec![])));
